@@ -334,7 +334,8 @@ def run(ctx, res):
                 done = rows_for(img, B, S.b, wc.n)
                 done = region_rows(img, B, S.b, wc.n) or done
                 if not done and B.name != "NackBuilder":
-                    res.ob(False, "anchor", B.name, "builder has layout rows in the RFC table")
+                    from .c16 import RULES as _TABLE
+                    res.extra_type(B.name, "builder has layout rows in the RFC table", _TABLE.keys(), [x.name for x in builders])
                 rows += img.rows
         if B.name == "NackBuilder":
             rows += nack_rows(res, F, D, S)
